@@ -13,7 +13,7 @@ if ! git -C "$WT" apply "$D/patch.diff" 2>/dev/null; then APPLY=failed; else APP
 (cd "$WT" && timeout 600 /venv/bin/python _demo.py >"$WT/_demo.out" 2>&1); MUT=$?
 SUITE=skipped
 if [ "${2:-}" = "--suite" ] && [ "$APPLY" = ok ]; then
-  SUITE=$(/tmp/mutprops/run_stable.sh "$WT" | head -1)
+  SUITE=$(/verif/tools/run_stable.sh "$WT" | head -1)
 fi
 printf '{"clean_exit": %s, "mutant_exit": %s, "apply": "%s", "suite": "%s", "repo_head": "%s"}\n' "$CLEAN" "$MUT" "$APPLY" "$SUITE" "$(git -C /repo rev-parse --short HEAD)" > "$D/verified.json"
 cat "$D/verified.json"
